@@ -210,7 +210,7 @@ func (e *Engine) Run(t *core.Tape, cfg *core.Config, st *core.Stats) *core.Viola
 	src := rend.Source
 	progHash := uint64(core.NewHash().Str(src).Str(ov.name))
 
-	proto, err := hostapi.Compile(src)
+	proto, err := hostapi.CompileFromFile(src) // through LoadFile behind a '#' line when the text has a header line
 	if err != nil {
 		return core.Violationf("rejects-valid", "generated program does not compile: %v\n%s", err, src)
 	}
@@ -459,7 +459,7 @@ func Debug(profile string, draws []uint32) {
 	for i, l := range strings.Split(src, "\n") {
 		fmt.Printf("%4d %s\n", i+1, l)
 	}
-	proto, err := hostapi.Compile(src)
+	proto, err := hostapi.CompileFromFile(src) // through LoadFile behind a '#' line when the text has a header line
 	if err != nil {
 		fmt.Println("compile error:", err)
 		return
@@ -497,7 +497,7 @@ func DebugFault(profile string, draws []uint32, aux []int64) {
 	lay := ir.DrawLayout(t)
 	ov := drawOptions(t)
 	src := ir.Render(prog, lay).Source
-	proto, err := hostapi.Compile(src)
+	proto, err := hostapi.CompileFromFile(src) // through LoadFile behind a '#' line when the text has a header line
 	if err != nil {
 		fmt.Println("compile error:", err)
 		return
